@@ -7,4 +7,15 @@
 // (drivers.NewWithBatchingDriverFactory / drivers.Batcher) between the DriverFacade and
 // the gated recording exporter, so that one page reaches the exporter as several
 // independently acknowledged / failed sub-batches.
+//
+// Besides these gated scenarios (fake storage, every environment call parked on a gate:
+// world_test.go, exec_test.go, explore_test.go) there is the real-storage family
+// (real_test.go): the same Manager / PipelineHandler / DriverFacade over
+// replication.NewStorageAdapter on the real storage driver, ledger store factory, logs
+// resource / paginator and system store, on a pgsim database (h/world), still inside
+// synctest bubbles (database/sql is bubble-friendly as long as the sql.DB is opened and
+// closed inside the bubble). It enumerates HISTORIES (create the pipeline, write on A / on B,
+// create B in A's bucket, stop / start / reset, process restart, pull timer) exhaustively up
+// to a length, shortest first, and applies the C33 oracle plus "nothing that is not a log of
+// the pipeline's ledger" to what the recording exporter received. It runs first in TestC33.
 package k5
